@@ -144,7 +144,7 @@ def subst_upvars(t, snaps):
 
 
 def strip_refs_t(t):
-    while isinstance(t, tuple) and t and t[0] in ('ref', 'der'):
+    while isinstance(t, tuple) and t and t[0] in ('ref', 'der', 'K'):
         t = t[1]
     return t
 
@@ -305,6 +305,8 @@ def search_cache_fns(facts):
     probe, store = [], []
     for name, f in users.items():
         calls = [facts.callee_name(t) or '' for b, t in f.calls()]
+        for c in facts.closures_of(name):          # a look-up may sit in a closure of the function (e.g. a probing loop)
+            calls += [facts.callee_name(t) or '' for b, t in c.calls()]
         if any('HashMap' in c and c.endswith('::insert') for c in calls):
             store.append(name)
         elif any('HashMap' in c and (c.endswith('::get') or c.endswith('::contains_key')) for c in calls):
